@@ -21,6 +21,7 @@ var c10Polluters = []jsProg{
 	{"bindings-depth1", `_.bindings.a = 99; delete _.bindings.keep; return {};`},
 	{"bindings-depth2", `_.bindings.o.x = 99; return {};`},
 	{"bindings-depth3", `_.bindings.o.l[0].z = 99; _.bindings.o.l.push(7); return {};`},
+	{"bindings-go-typed", `_.bindings.tags[0] = "changed"; _.bindings.labels.a = "changed"; _.bindings.recs[0].k = 2; return {};`},
 	{"props-nested", `_.props.cfg.x = 99; _.props.list.push(1); return {};`},
 	{"props-top", `_.props.top = 1; delete _.props.cfg; return {};`},
 	{"props-array-of-maps", `_.props.hosts[0].up = false; _.props.hosts[0].tags.push("t"); _.props.hosts[1][0].deep = 2; return {};`},
@@ -59,7 +60,9 @@ var c10Self = []jsProg{
 }
 
 func c10Bindings() match.Bindings {
-	return match.Bindings{"a": 1.0, "keep": "k", "o": M{"x": 1.0, "l": []interface{}{M{"z": 1.0}, 2.0}}}
+	// besides JSON-shaped values, composites of other Go types that a Go host or a native action can bind
+	return match.Bindings{"a": 1.0, "keep": "k", "o": M{"x": 1.0, "l": []interface{}{M{"z": 1.0}, 2.0}},
+		"tags": []string{"x", "y"}, "labels": map[string]string{"a": "b"}, "recs": []map[string]interface{}{{"k": 1.0}}}
 }
 
 func c10Props() core.StepProps {
